@@ -14,7 +14,7 @@ from typing import Any, List, Optional
 
 ROOTS = ["coro", "coro", "coro", "agen", "gen", "agen_thrown"]
 CORO_LINKS = ["await_coro", "await_gencoro", "await_wrapper", "await_gen", "agen_anext", "agen_asend", "agen_asend_agen", "with_del_self", "agen_athrow",
-              "agen_aclose", "async_for", "agen_anext_default", "aiter_anext_default"]
+              "agen_aclose", "async_for", "agen_anext_default", "aiter_anext_default", "with_static_exit"]
 GEN_LINKS = ["yield_from"]
 ENDS = ["trap", "future", "future_falsy", "future_len0", "gen_proto", "duck_gen", "coro_proto"]
 
@@ -321,6 +321,23 @@ def build(spec: dict) -> Chain:
             async def f():
                 async with Drops():
                     pass
+            return ch.reg(f())
+        if k == "with_static_exit":
+            # the chain passes through the body of a `with` whose manager's __exit__ is a staticmethod: the bytecode analysis of that
+            # frame fails (known finding F34) and says so with an InspectionWarning -- which an application may have turned into an
+            # error.  Either way only that frame's context information is affected, never the frames.
+            class Static:
+                def __enter__(s):
+                    return s
+
+                @staticmethod
+                def __exit__(*a):
+                    return False
+
+            async def f():
+                with Static():
+                    await aw(i + 1)
+                await tail()
             return ch.reg(f())
         if k == "agen_athrow":
             async def ag():
